@@ -16,7 +16,7 @@ import vlib
 
 META = {
     "category": "proof",
-    "text": "Coq theorems (Conc/Props_C06.v, closed under the global context): for every schedule of any number of client threads, the flush thread (rollover handshake through imm_trigger / mem_seq_no and its own wait-list link, version installation) and admissible compactions, the small-step interleaving model of lsmtk's write/load/range_scan refines an atomic multi-key snapshot store: every write (whole batch) takes effect at one instant between invocation and response, every read takes its view at one instant and returns the latest committed write per key (never stale w.r.t. completed writes, never unwritten, monotone), every view holds all or none of a batch, a scan is one snapshot; plus mutual exclusion / wait-list order = sequence order invariants, exclusive log ownership at seal, no duplicate skiplist insert. The code is tied to the model by real multi-threaded runs (2..8 clients + real memtable thread + real compaction threads, seeded yields and forced gate schedules): the recorded hook trace must be accepted step by step by the extracted model and the extracted atomic store, and the invocation/response history is checked by an independent oracle (a consistent cut in sequence order must exist for every read, respecting real time). F6 (batches torn by readers at the last ASSIGNED sequence number) was confirmed on the real code and repaired (70b43d5); the pre-repair machine is kept and proved to tear (C06_batch_atomic_refuted_before_repair).",
+    "text": "Coq theorems (Conc/Props_C06.v, closed under the global context): for every schedule of any number of client threads, the flush thread (rollover handshake through imm_trigger / mem_seq_no and its own wait-list link, version installation) and admissible compactions, the small-step interleaving model of lsmtk's write/load/range_scan refines an atomic multi-key snapshot store: every write (whole batch) takes effect at one instant between invocation and response, every read takes its view at one instant and returns the latest committed write per key (never stale w.r.t. completed writes, never unwritten, monotone), every view holds all or none of a batch, a scan is one snapshot; plus mutual exclusion / wait-list order = sequence order invariants, exclusive log ownership at seal, no duplicate skiplist insert. The code is tied to the model by real multi-threaded runs (2..8 clients + real memtable thread + real compaction threads, seeded yields and forced gate schedules): the recorded hook trace must be accepted step by step by the extracted model and the extracted atomic store, and the invocation/response history is checked by an independent oracle (a consistent cut in sequence order must exist for every read, respecting real time). F6 (batches torn by readers at the last ASSIGNED sequence number) was confirmed on the real code and repaired (70b43d5); the pre-repair machine is kept and proved to tear (C06_batch_atomic_refuted_before_repair). A second defect found by the gate harness (a failed write, e.g. an empty batch, left the wait list without waking the next writer: every later write hung) was repaired (bb64109) and the error path is part of the model.",
     "note": "Trusted / not covered: sequential consistency (no weak-memory reasoning); skiplist insert and seek are atomic steps (C17); the merged/pruned/bounded scan cursor is modelled by its result (C11/C03/C07); WaitList at the level of its specification (refinement proved in C18), link never blocks (< 65536 writers in flight); condition variables as spurious-wake-up-allowed (safety only; liveness is C20); error paths of write (log append failure) are not modelled; real runs sample schedules (the theorems cover all); compactions in real runs are not replayed on the model (its tree only gets flushed files; equal reads are what is compared).",
 }
 
